@@ -338,6 +338,7 @@ func RunC10(c *lib.Ctx) {
 		}
 	})
 	runRaceDiag(c, "C10", "c10-race", c.Q(1, 4))
+	runRaceDiag(c, "C10", "c10-race-cluster", c.Q(1, 3))
 }
 
 func bitlenInt(n int) int {
